@@ -205,31 +205,43 @@ DupLabel(c, how) == "dup/" \o c.kind \o "/" \o c.ident \o "/" \o c.p1 \o "/" \o 
 NameT(x)     == [t |-> "name", x |-> x, kids |-> <<>>]
 PathT(x, k)  == [t |-> "path", x |-> x, kids |-> <<k>>]
 GroupT(ks)   == [t |-> "group", x |-> "", kids |-> ks]
-UQ == [name |-> "q", leaves |-> {"c", "d", "r"}, subs |-> {}]
-UBm == [name |-> "b", leaves |-> {"c", "d", "e"}, subs |-> {UQ}]
-UP == [name |-> "p", leaves |-> {"d", "s"}, subs |-> {}]
-UA == [name |-> "a", leaves |-> {"d", "e"}, subs |-> {UBm, UP}]
 UseWorld == <<
   Mod("a", <<Fn("d", <<>>, 0, 2), Fn("e", <<>>, 0, 3),
-             Mod("b", <<Fn("c", <<>>, 0, 5), Fn("d", <<>>, 0, 6), Fn("e", <<>>, 0, 7),
-                        Mod("q", <<Fn("c", <<>>, 0, 9), Fn("d", <<>>, 0, 10), Fn("r", <<>>, 0, 11)>>)>>),
+             Mod("b", <<Fn("c", <<>>, 0, 5), Fn("d", <<>>, 0, 6),
+                        Mod("q", <<Fn("d", <<>>, 0, 10), Fn("r", <<>>, 0, 11)>>)>>),
              Mod("p", <<Fn("d", <<>>, 0, 12), Fn("s", <<>>, 0, 13)>>)>>),
   Fn("z", <<>>, 0, 1)>>
-RECURSIVE TreeN(_, _), EntryN(_, _)
-(* entries of a group / what may follow `ident ::` : a name, or a path into a submodule *)
-EntryN(m, n) ==
-  (IF n = 1 THEN {NameT(x) : x \in m.leaves} \cup {NameT(s.name) : s \in m.subs} ELSE {})
-  \cup UNION {{PathT(s.name, t) : t \in TreeN(s, n)} : s \in m.subs}
-TreeN(m, n) ==
-  EntryN(m, n)
-  \cup {GroupT(<<e>>) : e \in EntryN(m, n)}
-  \cup UNION {{g \in {GroupT(<<e1, e2>>) : e1 \in EntryN(m, k), e2 \in EntryN(m, n - k)} : g.kids[1] # g.kids[2]}
+(* Built bottom-up, one table per module indexed by the number of leaves   *)
+(* (zero-arity definitions: TLC evaluates each once).                       *)
+(* entries of a group / what may follow `ident ::` : a name, or a path     *)
+(* into a submodule                                                         *)
+Ent(n, names, subs) ==
+  (IF n = 1 THEN {NameT(x) : x \in names} ELSE {})
+  \cup UNION {{PathT(sb.name, t) : t \in sb.trees[n]} : sb \in subs}
+(* trees with n leaves from the entry table E: an entry, or a group of 2..3 distinct entries *)
+TreesOf(E, n) ==
+  E[n]
+  \cup UNION {{g \in {GroupT(<<e1, e2>>) : e1 \in E[k], e2 \in E[n - k]} : g.kids[1] # g.kids[2]}
                 : k \in 1..(n - 1)}
-  \cup UNION {UNION {{g \in {GroupT(<<e1, e2, e3>>) : e1 \in EntryN(m, k1), e2 \in EntryN(m, k2), e3 \in EntryN(m, n - k1 - k2)}
+  \cup UNION {UNION {{g \in {GroupT(<<e1, e2, e3>>) : e1 \in E[k1], e2 \in E[k2], e3 \in E[n - k1 - k2]}
                           : g.kids[1] # g.kids[2] /\ g.kids[1] # g.kids[3] /\ g.kids[2] # g.kids[3]}
                        : k2 \in 1..(n - k1 - 1)}
                 : k1 \in 1..(n - 2)}
-UseTrees == {tr \in UNION {{PathT("a", t) : t \in TreeN(UA, n)} : n \in 1..UB} : ~HasDup(UsePaths(tr))}
+QE == [n \in 1..UB |-> Ent(n, {"d", "r"}, {})]
+QT == [n \in 1..UB |-> TreesOf(QE, n)]
+PE == [n \in 1..UB |-> Ent(n, {"d", "s"}, {})]
+PT == [n \in 1..UB |-> TreesOf(PE, n)]
+BE == [n \in 1..UB |-> Ent(n, {"c", "d"}, {[name |-> "q", trees |-> QT]})]
+BT == [n \in 1..UB |-> TreesOf(BE, n)]
+AE == [n \in 1..UB |-> Ent(n, {"d", "e"}, {[name |-> "b", trees |-> BT], [name |-> "p", trees |-> PT]})]
+AT == [n \in 1..UB |-> TreesOf(AE, n)]
+(* a few shapes outside that grammar: one-entry groups, a module as the imported name *)
+ExtraTrees == {PathT("a", GroupT(<<NameT("d")>>)),
+               PathT("a", PathT("b", GroupT(<<NameT("c")>>))),
+               PathT("a", NameT("b")),
+               PathT("a", GroupT(<<PathT("b", NameT("q")), NameT("e")>>)),
+               PathT("a", GroupT(<<PathT("b", GroupT(<<PathT("q", GroupT(<<NameT("r")>>))>>)), NameT("p")>>))}
+UseTrees == {tr \in UNION {{PathT("a", t) : t \in AT[n]} : n \in 1..UB} : ~HasDup(UsePaths(tr))} \cup ExtraTrees
 
 MCInit == Init /\ hist = <<>>
 
